@@ -21,6 +21,7 @@ CLAIMED = {
  "C08": ("tunnel packet production: pure kernels GenerateNewPrices/calculateDeviationBPS for all prices and thresholds, one ProduceActiveTunnelPackets end-block step and one TriggerTunnel step through the real keeper from an arbitrary tunnel state (packet iff due and route succeeds, sequence +1, fees charged once, any failure/panic leaves store and balances unchanged)", "DESIGN.md §5 C08, §8"),
  "C17": ("one step of DepositToTunnel / WithdrawFromTunnel / ActivateTunnel / DeactivateTunnel through the real tunnel msg server from an arbitrary deposit state (2 tunnels x 2 depositors x 2 denoms) satisfying the module invariant: accept iff specified, exact ledger deltas, total = sum of records, active flag <=> index, state unchanged on rejection", "DESIGN.md §5 C17, §8"),
  "C02": ("PARTIAL. Totality: the begin/end-block code of x/feeds, x/oracle, x/tunnel and x/bandtss executed from arbitrary bounded module states and every parameter set accepted by validation never returns an error or lets a panic escape; determinism: feeds Vote / signal totals under every map iteration order, a static scan of all consensus packages for map ranges, goroutines, select, clocks and randomness whose reviewed allow-list is part of the check (an unreviewed site makes the check exit 2), and every such source reached on a chain-side path of any harness is reported as a VIOLATION. Outside: the Cosmos SDK / CometBFT / IAVL layers, ante handlers, app hash computation, wasm execution (go-owasm FFI)", "DESIGN.md §5 C02, §8.4"),
+ "C20": ("PARTIAL. grogu daemon: one real Signaller.Start iteration against the real feeds keeper and gRPC query server followed by the real MsgSubmitSignalPrices handler (whatever grogu decides to submit is accepted by the chain within the stated clock discrepancy), the calculateAssignedTime / filterAndPrepareSignalPrices kernels with all clocks symbolic (a due signal is selected from max(assigned, ts+cooldown+3) on and before the chain's miss deadline, under the stated polling/latency assumption), the real submitPrice under every key / broadcast / tx-query / monitoring outcome with a step clock, and the in-flight set shared by execute and submitPrice over all sequentialised schedules (no signal in two submissions, marks always released, keys returned once). Outside: the float64 isDeviated kernel, broadcastMsg internals, preemptive interleavings", "DESIGN.md §5 C20, §8"),
  "C10": ("signing life cycle in x/tss: SubmitSignature (accepted iff waiting, assigned, signer's account, not yet signed, honest share under the secp256k1 model), HandleSigningEndBlock / EndBlocker with one and two signings, HandleExpiredSignings, aggregation, InitiateNewSigningRound and HandleFailedSigning from arbitrary bounded states with a specification-side mirror: status only WAITING->SUCCESS|FALLEN, expiry exactly at ExpiredHeight <= height, idle members = assigned without a share, retry = attempt+1 <= MaxSigningAttempt with a fresh DRBG committee and fresh DEs, callbacks exactly once in order, interim data deleted", "DESIGN.md §5 C10, §8"),
  "C01": ("one MsgRequestData step (ValidateBasic + PrepareRequest with an arbitrary prepare phase), one MsgReportData step and one oracle EndBlocker step through the real msg server / keeper / abci code from an arbitrary stored oracle state satisfying the module invariant (inductive step): accepted iff authorised, pending trigger exactly at min_count, every pending request resolved once with a result mirroring the request, results immutable, expiry prefix in id order, failed/panicking signing creation rolled back", "DESIGN.md §5 C01"),
  "C03": ("one full pkg/tss signing round per enumerated committee over an algebraic secp256k1 model with the real group order: honest shares verify, any other s / R / signer key is rejected, the aggregate verifies under the group key; polynomial, nonces, message and hash outputs symbolic", "DESIGN.md §5 C03"),
